@@ -4,6 +4,7 @@ package main
 
 import (
 	"fmt"
+	"net/textproto"
 	"os"
 	"go/constant"
 	"go/types"
@@ -260,7 +261,21 @@ func (e *Env) eval(ex SExpr) Val {
 		return e.evalIdent(n.Name)
 	case SOld:
 		if e.old != nil {
-			return e.old.eval(n.X)
+			// facts recorded while evaluating in the old state (definitions
+			// of library terms over old values) are consequences of the
+			// library axioms: they hold in the current state's query too
+			var base int
+			if e.old.st != nil {
+				base = len(e.old.st.pc)
+			}
+			e.old.errs = e.errs
+			v := e.old.eval(n.X)
+			if e.old.st != nil && e.st != nil && e.old.st != e.st {
+				for _, f := range e.old.st.pc[base:] {
+					e.st.assume(f)
+				}
+			}
+			return v
 		}
 		return e.eval(n.X)
 	case SUn:
@@ -911,6 +926,17 @@ func (e *Env) evalCall(n SCall) Val {
 				}
 			}
 			return Val{T: False, Typ: boolT}
+		case "copied":
+			// copied(dst, src): io.Copy(dst, src) ran on this path
+			dst := e.eval(n.Args[0])
+			src := e.eval(n.Args[1])
+			var alts []Term
+			for _, ev := range e.st.resp {
+				if ev.Kind == "bodycopy" && ev.KeyT.Sort == dst.T.Sort && ev.Val.Sort == src.T.Sort {
+					alts = append(alts, And(Eq(ev.KeyT, dst.T), Eq(ev.Val, src.T)))
+				}
+			}
+			return Val{T: Or(alts...), Typ: boolT}
 		case "itoa":
 			v := e.eval(n.Args[0])
 			return x.itoa(e.st, v.T)
@@ -959,6 +985,31 @@ func (e *Env) evalCall(n SCall) Val {
 			hk, hs, _, _ := x.mapComps(mt)
 			has := x.heapGet(e.st, hk, hs)
 			return Val{T: And(Not(Eq(m.T, IntLit(0))), Select(Select(has, m.T), x.termOf(e.st, &k))), Typ: boolT}
+		case "hdr":
+			// hdr(h, "Name"): what h.Get("Name") returns for a header map h (not the ghost response's)
+			h := e.eval(n.Args[0])
+			lit, ok := n.Args[1].(SStr)
+			if !ok || h.Typ == nil {
+				return e.fail("hdr(h, \"Name\") needs a header map and a literal name")
+			}
+			mt, isMap := h.Typ.Underlying().(*types.Map)
+			if !isMap {
+				return e.fail("hdr(): not a header map")
+			}
+			x.te.SortOf(mt.Elem())
+			hk, hs, vk, vs := x.mapComps(mt)
+			has := x.heapGet(e.st, hk, hs)
+			val := x.heapGet(e.st, vk, vs)
+			k := StrLit(textproto.CanonicalMIMEHeaderKey(lit.V))
+			present := And(Not(Eq(h.T, IntLit(0))), Select(Select(has, h.T), k))
+			lst := Select(Select(val, h.T), k)
+			return Val{T: Ite(And(present, Gt(sliceLen(lst), IntLit(0))), Select(sliceArr(lst), IntLit(0)), StrLit("")), Typ: types.Typ[types.String]}
+		case "copyErr":
+			// copyErr(): the error returned by the last io.Copy on this path (nil if none ran)
+			if t, ok := e.st.ghost["copyerr"]; ok {
+				return Val{T: t, Typ: types.Universe.Lookup("error").Type()}
+			}
+			return Val{T: NilIface, Typ: types.Universe.Lookup("error").Type()}
 		case "hashed":
 			// hashed(h): ghost string of all bytes written to the hash.Hash h
 			h := e.eval(n.Args[0])
